@@ -196,3 +196,13 @@ func (t *T) Sum(data []byte) [4]byte {
 	}
 	return [4]byte{byte(t.K), byte(len(data)), 3, 4}
 }
+
+// Tiny functions: bodies shorter than the entry jump (patchable only thanks to the padding behind them).
+//
+//go:noinline
+func Tiny() int { return 1 }
+
+// Getter is a tiny method.
+//
+//go:noinline
+func (t *T) Getter() int { return t.K }
